@@ -35,6 +35,14 @@ def main():
            '| id | change | obligations that broke | monitor signatures of the failing input | existing tests |',
            '|---|---|---|---|---|'] + rows
     open(os.path.join(VERIF, 'seeded', 'README.md'), 'w').write('\n'.join(out) + '\n')
+    # the same table inside DESIGN.md, between its markers
+    dp = os.path.join(VERIF, 'DESIGN.md')
+    d = open(dp).read()
+    a, b = '<!-- seeded-table-begin -->', '<!-- seeded-table-end -->'
+    if a in d and b in d:
+        table = '\n'.join(l for l in out if l.startswith('|'))
+        d = d[:d.index(a) + len(a)] + '\n' + table + '\n' + d[d.index(b):]
+        open(dp, 'w').write(d)
     print('\n'.join(out))
 
 
